@@ -168,3 +168,54 @@ Definition delete_child (par : node) (k : rkey) : res node :=
   | Seq items => Ok (Seq (remove_item items (rkey_text k) 0 0))
   | Scalar _ _ => Err
   end.
+
+(* ---------- pointer bookkeeping across a structural delete ----------
+   Go pointers stay valid when siblings are removed; position-based pointers
+   must be shifted.  [removed] are the child positions deleted from [par]. *)
+Fixpoint ptr_eqb_path (a b : list nat) : bool :=
+  match a, b with
+  | [], [] => true
+  | x :: a', y :: b' => Nat.eqb x y && ptr_eqb_path a' b'
+  | _, _ => false
+  end.
+Definition ptr_eqb (a b : ptr) : bool := Nat.eqb (fst a) (fst b) && ptr_eqb_path (snd a) (snd b).
+
+(* split q as pre ++ j :: rest when pre is a prefix *)
+Fixpoint strip_prefix (pre q : list nat) : option (list nat) :=
+  match pre, q with
+  | [], _ => Some q
+  | x :: pre', y :: q' => if Nat.eqb x y then strip_prefix pre' q' else None
+  | _ :: _, [] => None
+  end.
+
+Definition shift_ptr (par : ptr) (removed : list nat) (v : ptr) : option ptr :=
+  if negb (Nat.eqb (fst par) (fst v)) then Some v else
+  match strip_prefix (snd par) (snd v) with
+  | Some (j :: rest) =>
+      if existsb (Nat.eqb j) removed then None     (* the node itself (or an ancestor) was detached *)
+      else Some (fst v, snd par ++ (j - length (filter (fun r => Nat.ltb r j) removed))%nat :: rest)
+  | _ => Some v
+  end.
+
+Fixpoint shift_ptrs (par : ptr) (removed : list nat) (vs : list ptr) : list ptr :=
+  match vs with
+  | [] => []
+  | v :: r => match shift_ptr par removed v with Some v' => v' :: shift_ptrs par removed r | None => shift_ptrs par removed r end
+  end.
+
+(* positions delete_child removes *)
+Fixpoint removed_entries (es : list (str * node)) (k : str) (i : nat) : list nat :=
+  match es with [] => [] | (k', _) :: r => if str_eqb k' k then i :: removed_entries r k (S i) else removed_entries r k (S i) end.
+
+Definition removed_positions (par : node) (k : rkey) : list nat :=
+  match par with
+  | Map es => match k with RStr s => removed_entries es s O | RIdx _ => [] end
+  | Seq items => filter (fun i => str_eqb (dec_N (N.of_nat i)) (rkey_text k)) (seq 0 (length items))
+  | Scalar _ _ => []
+  end.
+
+Fixpoint dedupe_ptrs (vs : list ptr) (seen : list ptr) : list ptr :=
+  match vs with
+  | [] => []
+  | v :: r => if existsb (ptr_eqb v) seen then dedupe_ptrs r seen else v :: dedupe_ptrs r (v :: seen)
+  end.
